@@ -167,7 +167,7 @@ pub fn run(ctx: &RunCtx) -> Outcome {
         return o;
     }
     let mut common = gen::common_cfg();
-    common.leaves.truncate(13);
+    common.leaves.truncate(15);
     let c3 = space(&common, if quick { 3 } else { 4 }, false);
     let mut plain_texts = gen::text_set(&gen::SIGMA5, 3, 0);
     plain_texts.extend(gen::cr_texts());
